@@ -171,7 +171,8 @@ class OutputBuffer:
 
     def v(self, s: str, write_now: bool = False) -> 'OutputBuffer':
         '''Prints a message if verbose output is enabled.'''
-        if self.verbose or self.debug:
+        # Note: in JSON mode, progress messages would corrupt the JSON document on stdout, so they are only written when debugging.
+        if (self.verbose and not self.json) or self.debug:
             self.info(s)
             if write_now:
                 self.write()
